@@ -1,12 +1,755 @@
-//! C01 - (to be written)
+//! C01 - encrypt-then-decrypt returns the message up to the configured *bounded* error (engine E1).
+//!
+//! Oracle: the harness recomputes the phase body + sum_i mask_i * s_i exactly (pvc_common::phase, big integers, clear
+//! secret) from the ciphertext limbs, subtracts the exact message placed at its declared position and requires for
+//! every coefficient  |phase - m| <= E * 2^-((limb+1)*b)  with  E = round(bound * 2^((limb+1)*b-k))  for secret-key
+//! encryption (GLWE, seed-compressed GLWE after decompression, LWE) and  E * (1 + |u|_1 + |s|_1)  for public-key
+//! encryption (u*e_pk + e_0 + sum e_i*s_i), plus one unit of the ciphertext's last limb when the plaintext is longer
+//! than the ciphertext (its extra limbs cannot be represented).  The error must also be an integer at the declared
+//! limb.  Independently the library's own decryption into plaintexts of several (radix, precision) pairs must
+//! equal the phase: exactly when the plaintext is long enough, else within one unit of its last limb, digits normalised.
 
-use pvc_engine::Run;
-use serde_json::Value;
+use crate::enc_util::*;
+use poulpy_core::layouts::{
+    GLWECompressed, GLWEDecompress, GLWEInfos, GLWELayout, GLWEPublicKey, GLWEPublicKeyPreparedFactory, GLWEToRef, LWEInfos,
+    LWELayout,
+};
+use poulpy_core::{
+    EncryptionLayout, GLWECompressedEncryptSk, GLWEDecrypt, GLWEEncryptPk, GLWEEncryptSk, GLWEPublicKeyGenerate, LWEDecrypt,
+    LWEEncryptSk, ScratchTakeCore,
+};
+use poulpy_hal::layouts::{FillUniform, Module, Scratch, VecZnx, ZnxInfos};
+use poulpy_hal::source::Source;
+use pvc_common::phase::{ALL_DISTS, Dist, glwe_phase, lwe_phase, torus_err};
+use pvc_common::{Bk, CoreAll, Family, HalAll, for_backends};
+use pvc_engine::rng::Rng;
+use pvc_engine::{Rec, Run, Tier, fnv, guarded};
+use pvc_model::IBig;
+use pvc_model::torus;
+use serde::{Deserialize, Serialize};
+use serde_json::{Value, json};
+use std::collections::HashSet;
 
-pub fn run(_run: &mut Run) {
-    panic!("C01: not implemented yet");
+#[derive(Clone, Copy, Debug, PartialEq, Eq, Serialize, Deserialize)]
+pub enum Path {
+    GlweSk,
+    GlwePk,
+    GlweCompressed,
+    LweSk,
+    /// secret-key encryption of a plaintext whose radix differs from the ciphertext's: accepted only if the message
+    /// lands at its declared position (or the call is rejected)
+    GlweSkCrossRadix,
 }
 
-pub fn replay(_run: &mut Run, _d: &Value) {
-    panic!("C01: not implemented yet");
+impl Path {
+    fn name(self) -> &'static str {
+        match self {
+            Path::GlweSk => "glwe_sk",
+            Path::GlwePk => "glwe_pk",
+            Path::GlweCompressed => "glwe_compressed",
+            Path::LweSk => "lwe_sk",
+            Path::GlweSkCrossRadix => "glwe_sk_cross_radix_pt",
+        }
+    }
+}
+
+#[derive(Clone, Debug, Serialize, Deserialize)]
+pub struct Case {
+    pub path: Path,
+    pub backend: String,
+    pub n: usize,
+    pub rank: usize,
+    pub b: usize,
+    /// encryption precision (NoiseInfos::k)
+    pub k: usize,
+    /// ciphertext limbs beyond ceil(k/b)
+    pub extra: usize,
+    pub dist: Dist,
+    pub noise: u8,
+    /// plaintext radix (only differs from b on the cross-radix path)
+    pub b_pt: usize,
+}
+
+#[derive(Clone, Copy, Debug, Default)]
+pub struct Inner {
+    pub s: Option<usize>,
+    pub pv: Option<usize>,
+    pub mc: Option<usize>,
+}
+
+#[derive(Clone)]
+pub struct Knobs {
+    seeds: usize,
+    msgs: Vec<usize>,
+    /// decrypt variants are run when (s + pv + mc) % dec_mod == 0
+    dec_mod: usize,
+}
+
+/// replays enable every inner selector
+pub fn replay_knobs() -> Knobs {
+    Knobs {
+        seeds: 8,
+        msgs: (0..MSG_CLASSES).collect(),
+        dec_mod: 1,
+    }
+}
+
+pub fn knobs(tier: Tier) -> Knobs {
+    match tier {
+        Tier::Quick => Knobs {
+            seeds: 2,
+            msgs: vec![0, 3, 5, 6],
+            dec_mod: 2,
+        },
+        Tier::Thorough => Knobs {
+            seeds: 8,
+            msgs: (0..MSG_CLASSES).collect(),
+            dec_mod: 3,
+        },
+    }
+}
+
+/// message class index meaning "call the *_zero_* API" (no plaintext)
+const MC_ZERO_API: usize = 100;
+
+fn fail_once(
+    rec: &mut Rec,
+    seen: &mut HashSet<(String, String)>,
+    op: &str,
+    kind: &str,
+    backend: &str,
+    c: &Case,
+    inner: Value,
+    extra: Value,
+) {
+    if !seen.insert((op.to_string(), kind.to_string())) {
+        return;
+    }
+    let mut d = json!({"op": op, "backend": backend, "kind": kind, "case": c, "inner": inner});
+    if let (Value::Object(m), Value::Object(e)) = (&mut d, extra) {
+        for (k, v) in e {
+            m.insert(k, v);
+        }
+    }
+    rec.fail(d);
+}
+
+/// plaintext layouts the library's decryption is asked to fill: (radix, size)
+fn out_layouts(b: usize, size: usize) -> Vec<(usize, usize)> {
+    let bits = b * size;
+    let mut out = vec![(b, size)];
+    if size > 1 {
+        out.push((b, size - 1));
+    }
+    out.push((b, size + 1));
+    let mut seen = vec![b];
+    for bo in [b + 1, b.saturating_sub(1), 2 * b, 7] {
+        if bo == 0 || bo > 50 || seen.contains(&bo) {
+            continue;
+        }
+        seen.push(bo);
+        let so = bits.div_ceil(bo);
+        out.push((bo, so));
+        if so > 1 {
+            out.push((bo, so - 1));
+        }
+    }
+    out
+}
+
+/// judges a decrypted value against the exact phase; Ok or (kind, detail)
+fn judge_decrypt(got: &IBig, gbits: usize, phase: &IBig, pbits: usize) -> Result<(), (String, String)> {
+    let (d, l) = torus_err(got, gbits, phase, pbits);
+    let ad = torus::abs(&d);
+    if gbits >= pbits {
+        if ad != IBig::from(0) {
+            return Err(("wrong_value".into(), format!("inexact although the plaintext holds {gbits} >= {pbits} bits: {d} / 2^{l}")));
+        }
+    } else if ad > torus::pow2(l - gbits) {
+        return Err((
+            "wrong_value".into(),
+            format!("decrypted value differs from the phase by {d} / 2^{l} > one unit 2^-{gbits} of the plaintext's last limb"),
+        ));
+    }
+    Ok(())
+}
+
+pub fn exec<B: Bk>(c: &Case, kn: &Knobs, sel: Inner, seed: u64, rec: &mut Rec)
+where
+    Module<B>: HalAll<B> + CoreAll<B>,
+    Scratch<B>: ScratchTakeCore<B>,
+{
+    match c.path {
+        Path::LweSk => exec_lwe::<B>(c, kn, sel, seed, rec),
+        _ => exec_glwe::<B>(c, kn, sel, seed, rec),
+    }
+}
+
+fn exec_glwe<B: Bk>(c: &Case, kn: &Knobs, sel: Inner, seed: u64, rec: &mut Rec)
+where
+    Module<B>: HalAll<B> + CoreAll<B>,
+    Scratch<B>: ScratchTakeCore<B>,
+{
+    let (n, rank, b) = (c.n, c.rank, c.b);
+    let m = B::module(n);
+    let size = c.k.div_ceil(b) + c.extra;
+    let bits = size * b;
+    let noise = noise_cfg(c.noise, c.k);
+    let layout = GLWELayout {
+        n: deg(n),
+        base2k: b2k(b),
+        k: tp(bits),
+        rank: rk(rank),
+    };
+    let enc = EncryptionLayout::new(layout, noise).expect("admissible encryption layout");
+    let (limb, emax) = noise_limb_bound(&noise, b);
+    let unit_sh = bits - (limb + 1) * b; // error unit 2^-((limb+1)b) in units of 2^-bits
+    let case_hash = fnv(format!("{:?}", c).as_bytes());
+    rec.distinct(case_hash);
+    rec.sample(|| serde_json::to_value(c).unwrap());
+    let mut seen: HashSet<(String, String)> = HashSet::new();
+    let op_enc = match c.path {
+        Path::GlweSk | Path::GlweSkCrossRadix => "glwe_encrypt_sk",
+        Path::GlwePk => "glwe_encrypt_pk",
+        Path::GlweCompressed => "glwe_compressed_encrypt_sk+decompress_glwe",
+        Path::LweSk => unreachable!(),
+    };
+    let sk_bytes = m.glwe_encrypt_sk_tmp_bytes(&enc);
+    let pk_bytes = m.glwe_encrypt_pk_tmp_bytes(&enc);
+    let cmp_bytes = m.glwe_compressed_encrypt_sk_tmp_bytes(&enc);
+    let dec_bytes = m.glwe_decrypt_tmp_bytes(&enc);
+
+    for s in 0..kn.seeds {
+        if sel.s.is_some_and(|x| x != s) {
+            continue;
+        }
+        let sk = make_sk::<B>(&m, n, rank, c.dist, seed_of(1, s as u64));
+        let emax_total: i128 = match c.path {
+            Path::GlwePk => emax * (1 + u_l1_max(n, c.dist) + sk.l1),
+            _ => emax,
+        };
+        // ---- public key ----
+        let mut pk_prep = None;
+        if c.path == Path::GlwePk {
+            let mut pk = GLWEPublicKey::alloc_from_infos(&enc);
+            pk.fill_uniform_garbage();
+            let mut xe = Source::new(seed_of(4, s as u64));
+            let mut xa = Source::new(seed_of(5, s as u64));
+            let r = guarded(|| m.glwe_public_key_generate(&mut pk, &sk.prep, &enc, &mut xe, &mut xa));
+            rec.evals(1);
+            if let Err(msg) = r {
+                fail_once(rec, &mut seen, "glwe_public_key_generate", "panic", B::NAME, c, json!({"s": s}), json!({"panic": msg}));
+                continue;
+            }
+            // the public key is an encryption of zero: its phase is the key error
+            let pkd = vec_owned(pk.to_ref().data());
+            let ph = glwe_phase(&pkd, b, &sk.clear);
+            for (i, p) in ph.iter().enumerate() {
+                let d = torus::centered_mod_pow2(p, bits);
+                let tol: IBig = IBig::from(emax) << unit_sh;
+                if torus::abs(&d) > tol {
+                    fail_once(
+                        rec,
+                        &mut seen,
+                        "glwe_public_key_generate",
+                        "noise_too_large",
+                        B::NAME,
+                        c,
+                        json!({"s": s}),
+                        json!({"index": i, "err": d.to_string(), "tol": tol.to_string(), "scaled_bits": bits}),
+                    );
+                    break;
+                }
+            }
+            let mut pp = m.glwe_public_key_prepared_alloc_from_infos(&enc);
+            let r = guarded(|| m.glwe_public_key_prepare(&mut pp, &pk));
+            if let Err(msg) = r {
+                fail_once(rec, &mut seen, "glwe_public_key_prepare", "panic", B::NAME, c, json!({"s": s}), json!({"panic": msg}));
+                continue;
+            }
+            pk_prep = Some(pp);
+        }
+
+        let pt_sizes: Vec<usize> = if c.path == Path::GlweSkCrossRadix {
+            // plaintext of radix b_pt with about the ciphertext's precision
+            vec![bits.div_ceil(c.b_pt).max(1)]
+        } else {
+            let mut v = vec![];
+            if size > 1 {
+                v.push(size - 1);
+            }
+            v.push(size);
+            v.push(size + 1);
+            v
+        };
+        for (pv, &psize) in pt_sizes.iter().enumerate() {
+            if sel.pv.is_some_and(|x| x != pv) {
+                continue;
+            }
+            let mut msgs = kn.msgs.clone();
+            if psize == size && matches!(c.path, Path::GlweSk | Path::GlwePk) {
+                msgs.push(MC_ZERO_API);
+            }
+            for &mc in &msgs {
+                if sel.mc.is_some_and(|x| x != mc) {
+                    continue;
+                }
+                let inner = json!({"s": s, "pv": pv, "mc": mc, "pt_size": psize});
+                let mut rng = Rng::new(seed, case_hash ^ ((s * 64 + pv * 16) as u64 + mc as u64));
+                let mut pt = pt_garbage(n, c.b_pt, psize, 2);
+                if mc != MC_ZERO_API {
+                    fill_message(pt.data_mut(), c.b_pt, mc, &mut rng);
+                }
+                let mut xe = Source::new(seed_of(2, s as u64));
+                let mut xa = Source::new(seed_of(3, s as u64));
+                let mut ct = glwe_garbage(n, b, size, rank, (s + mc) % 2);
+                let r = match c.path {
+                    Path::GlweSk | Path::GlweSkCrossRadix => with_scratch::<B, _>(sk_bytes, mc % 2, |sc| {
+                        guarded(|| {
+                            if mc == MC_ZERO_API {
+                                m.glwe_encrypt_zero_sk(&mut ct, &sk.prep, &enc, &mut xe, &mut xa, sc)
+                            } else {
+                                m.glwe_encrypt_sk(&mut ct, &pt, &sk.prep, &enc, &mut xe, &mut xa, sc)
+                            }
+                        })
+                    }),
+                    Path::GlwePk => with_scratch::<B, _>(pk_bytes, mc % 2, |sc| {
+                        let pp = pk_prep.as_ref().unwrap();
+                        guarded(|| {
+                            if mc == MC_ZERO_API {
+                                m.glwe_encrypt_zero_pk(&mut ct, pp, &enc, &mut xa, &mut xe, sc)
+                            } else {
+                                m.glwe_encrypt_pk(&mut ct, &pt, pp, &enc, &mut xa, &mut xe, sc)
+                            }
+                        })
+                    }),
+                    Path::GlweCompressed => {
+                        let mut cc = GLWECompressed::alloc_from_infos(&enc);
+                        cc.fill_uniform(64, &mut Source::new(seed_of(9, mc as u64 + 1)));
+                        let r = with_scratch::<B, _>(cmp_bytes, mc % 2, |sc| {
+                            guarded(|| m.glwe_compressed_encrypt_sk(&mut cc, &pt, &sk.prep, seed_of(3, s as u64), &enc, &mut xe, sc))
+                        });
+                        match r {
+                            Ok(()) => guarded(|| m.decompress_glwe(&mut ct, &cc)),
+                            e => e,
+                        }
+                    }
+                    Path::LweSk => unreachable!(),
+                };
+                rec.evals(1);
+                if let Err(msg) = r {
+                    if c.path == Path::GlweSkCrossRadix {
+                        // rejecting a plaintext of another radix is an acceptable answer
+                        rec.add("cross_radix_rejected", 1);
+                        continue;
+                    }
+                    fail_once(rec, &mut seen, op_enc, "panic", B::NAME, c, inner, json!({"panic": msg}));
+                    continue;
+                }
+                // ---- exact phase against the exact message ----
+                let ph = glwe_phase(ct.data(), b, &sk.clear);
+                let take = if c.path == Path::GlweSkCrossRadix { psize } else { psize.min(size) };
+                let mbits = take * c.b_pt;
+                let trunc: i128 = if c.path != Path::GlweSkCrossRadix && psize > size { 1 } else { 0 };
+                let l = bits.max(mbits);
+                let tol: IBig = ((IBig::from(emax_total) << unit_sh) + IBig::from(trunc)) << (l - bits);
+                let mut worst = IBig::from(0);
+                let mut hash_acc: Vec<i64> = Vec::with_capacity(n);
+                for (i, p) in ph.iter().enumerate() {
+                    let mval = if mc == MC_ZERO_API { IBig::from(0) } else { coeff_value_prefix(pt.data(), 0, i, c.b_pt, take) };
+                    let (d, ll) = torus_err(p, bits, &mval, mbits);
+                    debug_assert_eq!(ll, l);
+                    let ad = torus::abs(&d);
+                    hash_acc.push(ibig_to_i128(&d).map(|x| x as i64).unwrap_or(i64::MAX));
+                    if ad > tol {
+                        let kind = if c.path == Path::GlweSkCrossRadix { "message_misplaced_cross_radix" } else { "noise_too_large" };
+                        fail_once(
+                            rec,
+                            &mut seen,
+                            op_enc,
+                            kind,
+                            B::NAME,
+                            c,
+                            inner.clone(),
+                            json!({"index": i, "err": d.to_string(), "tol": tol.to_string(), "scaled_bits": l,
+                                   "err_over_tol": approx_units(&ad, 0) / approx_units(&tol, 0).max(1e-300),
+                                   "noise_limb": limb, "emax": emax.to_string(), "emax_total": emax_total.to_string()}),
+                        );
+                        break;
+                    }
+                    // error is an integer at the declared limb (message exactly representable)
+                    if trunc == 0 && c.path != Path::GlweSkCrossRadix && l == bits && unit_sh > 0 {
+                        let low = torus::centered_mod_pow2(&d, unit_sh);
+                        if low != IBig::from(0) {
+                            fail_once(
+                                rec,
+                                &mut seen,
+                                op_enc,
+                                "error_below_declared_limb",
+                                B::NAME,
+                                c,
+                                inner.clone(),
+                                json!({"index": i, "err": d.to_string(), "scaled_bits": l, "noise_limb": limb}),
+                            );
+                            break;
+                        }
+                    }
+                    if ad > worst {
+                        worst = ad;
+                    }
+                }
+                rec.outcome(pvc_engine::hash_i64s(&hash_acc));
+                // ---- library decryption against the phase ----
+                if c.path == Path::GlweSkCrossRadix || (s + pv + (mc % 16)) % kn.dec_mod != 0 {
+                    continue;
+                }
+                for (bo, so) in out_layouts(b, size) {
+                    if B::FAMILY == Family::Fft64 && bo > 50 {
+                        continue;
+                    }
+                    let mut po = pt_garbage(n, bo, so, (so + mc) % 2);
+                    let r = with_scratch::<B, _>(dec_bytes, so % 2, |sc| guarded(|| m.glwe_decrypt(&ct, &mut po, &sk.prep, sc)));
+                    rec.evals(1);
+                    let inner_d = json!({"s": s, "pv": pv, "mc": mc, "pt_size": psize, "out_b": bo, "out_size": so});
+                    if let Err(msg) = r {
+                        fail_once(rec, &mut seen, "glwe_decrypt", "panic", B::NAME, c, inner_d, json!({"panic": msg, "cross_radix": bo != b}));
+                        continue;
+                    }
+                    if po.base2k().0 as usize != bo || po.size() != so {
+                        fail_once(rec, &mut seen, "glwe_decrypt", "metadata_changed", B::NAME, c, inner_d.clone(), json!({}));
+                    }
+                    if !digits_normalised(po.data(), 0, bo) {
+                        fail_once(rec, &mut seen, "glwe_decrypt", "digits_not_normalised", B::NAME, c, inner_d.clone(), json!({"cross_radix": bo != b}));
+                    }
+                    for (i, p) in ph.iter().enumerate() {
+                        let got = coeff_value(po.data(), 0, i, bo);
+                        if let Err((kind, detail)) = judge_decrypt(&got, bo * so, p, bits) {
+                            fail_once(
+                                rec,
+                                &mut seen,
+                                "glwe_decrypt",
+                                &kind,
+                                B::NAME,
+                                c,
+                                inner_d.clone(),
+                                json!({"index": i, "detail": detail, "cross_radix": bo != b, "truncating": bo * so < bits}),
+                            );
+                            break;
+                        }
+                    }
+                }
+            }
+        }
+    }
+}
+
+trait GarbageFill {
+    fn fill_uniform_garbage(&mut self);
+}
+
+impl GarbageFill for GLWEPublicKey<Vec<u8>> {
+    fn fill_uniform_garbage(&mut self) {
+        use poulpy_core::layouts::GLWEToMut;
+        let mut g = self.to_mut();
+        pvc_engine::rng::garbage(bytemuck_i64(poulpy_hal::layouts::ZnxViewMut::raw_mut(g.data_mut())), 0);
+    }
+}
+
+fn exec_lwe<B: Bk>(c: &Case, kn: &Knobs, sel: Inner, seed: u64, rec: &mut Rec)
+where
+    Module<B>: HalAll<B> + CoreAll<B>,
+    Scratch<B>: ScratchTakeCore<B>,
+{
+    let (n, b) = (c.n, c.b);
+    let m = B::module(8);
+    let size = c.k.div_ceil(b) + c.extra;
+    let bits = size * b;
+    let noise = noise_cfg(c.noise, c.k);
+    let layout = LWELayout {
+        n: deg(n),
+        k: tp(bits),
+        base2k: b2k(b),
+    };
+    let enc = EncryptionLayout::new(layout, noise).expect("admissible encryption layout");
+    let (limb, emax) = noise_limb_bound(&noise, b);
+    let unit_sh = bits - (limb + 1) * b;
+    let case_hash = fnv(format!("{:?}", c).as_bytes());
+    rec.distinct(case_hash);
+    rec.sample(|| serde_json::to_value(c).unwrap());
+    let mut seen: HashSet<(String, String)> = HashSet::new();
+    let enc_bytes = m.lwe_encrypt_sk_tmp_bytes(&enc);
+    let dec_bytes = m.lwe_decrypt_tmp_bytes(&enc);
+    for s in 0..kn.seeds {
+        if sel.s.is_some_and(|x| x != s) {
+            continue;
+        }
+        let (sk, clear) = make_lwe_sk(n, c.dist, seed_of(1, s as u64));
+        let mut pt_sizes = vec![];
+        if size > 1 {
+            pt_sizes.push(size - 1);
+        }
+        pt_sizes.push(size);
+        pt_sizes.push(size + 1);
+        for (pv, &psize) in pt_sizes.iter().enumerate() {
+            if sel.pv.is_some_and(|x| x != pv) {
+                continue;
+            }
+            for &mc in &kn.msgs {
+                if sel.mc.is_some_and(|x| x != mc) {
+                    continue;
+                }
+                let inner = json!({"s": s, "pv": pv, "mc": mc, "pt_size": psize});
+                let mut rng = Rng::new(seed, case_hash ^ ((s * 64 + pv * 16) as u64 + mc as u64));
+                let mut pt = lwe_pt_garbage(b, psize, 2);
+                fill_message(pt.data_mut(), b, mc, &mut rng);
+                let mut xe = Source::new(seed_of(2, s as u64));
+                let mut xa = Source::new(seed_of(3, s as u64));
+                let mut ct = lwe_garbage(n, b, size, (s + mc) % 2);
+                let r = with_scratch::<B, _>(enc_bytes, mc % 2, |sc| {
+                    guarded(|| m.lwe_encrypt_sk(&mut ct, &pt, &sk, &enc, &mut xe, &mut xa, sc))
+                });
+                rec.evals(1);
+                if let Err(msg) = r {
+                    fail_once(rec, &mut seen, "lwe_encrypt_sk", "panic", B::NAME, c, inner, json!({"panic": msg}));
+                    continue;
+                }
+                let ctd: VecZnx<Vec<u8>> = vec_owned(ct.data());
+                let p = lwe_phase(&ctd, b, &clear);
+                let take = psize.min(size);
+                let mbits = take * b;
+                let trunc: i128 = if psize > size { 1 } else { 0 };
+                let tol: IBig = (IBig::from(emax) << unit_sh) + IBig::from(trunc);
+                let mval = coeff_value_prefix(pt.data(), 0, 0, b, take);
+                let (d, l) = torus_err(&p, bits, &mval, mbits);
+                let ad = torus::abs(&d);
+                rec.outcome(ibig_to_i128(&d).map(|x| x as u64).unwrap_or(u64::MAX));
+                if ad > tol {
+                    fail_once(
+                        rec,
+                        &mut seen,
+                        "lwe_encrypt_sk",
+                        "noise_too_large",
+                        B::NAME,
+                        c,
+                        inner.clone(),
+                        json!({"err": d.to_string(), "tol": tol.to_string(), "scaled_bits": l, "noise_limb": limb, "emax": emax.to_string()}),
+                    );
+                } else if trunc == 0 && unit_sh > 0 && torus::centered_mod_pow2(&d, unit_sh) != IBig::from(0) {
+                    fail_once(
+                        rec,
+                        &mut seen,
+                        "lwe_encrypt_sk",
+                        "error_below_declared_limb",
+                        B::NAME,
+                        c,
+                        inner.clone(),
+                        json!({"err": d.to_string(), "scaled_bits": l, "noise_limb": limb}),
+                    );
+                }
+                if (s + pv + mc) % kn.dec_mod != 0 {
+                    continue;
+                }
+                for (bo, so) in out_layouts(b, size) {
+                    if B::FAMILY == Family::Fft64 && bo > 50 {
+                        continue;
+                    }
+                    let mut po = lwe_pt_garbage(bo, so, (so + mc) % 2);
+                    let r = with_scratch::<B, _>(dec_bytes, so % 2, |sc| guarded(|| m.lwe_decrypt(&ct, &mut po, &sk, sc)));
+                    rec.evals(1);
+                    let inner_d = json!({"s": s, "pv": pv, "mc": mc, "pt_size": psize, "out_b": bo, "out_size": so});
+                    if let Err(msg) = r {
+                        fail_once(rec, &mut seen, "lwe_decrypt", "panic", B::NAME, c, inner_d, json!({"panic": msg, "cross_radix": bo != b}));
+                        continue;
+                    }
+                    if po.base2k().0 as usize != bo || po.size() != so {
+                        fail_once(rec, &mut seen, "lwe_decrypt", "metadata_changed", B::NAME, c, inner_d.clone(), json!({}));
+                    }
+                    if !digits_normalised(po.data(), 0, bo) {
+                        fail_once(rec, &mut seen, "lwe_decrypt", "digits_not_normalised", B::NAME, c, inner_d.clone(), json!({"cross_radix": bo != b}));
+                    }
+                    let got = coeff_value(po.data(), 0, 0, bo);
+                    if let Err((kind, detail)) = judge_decrypt(&got, bo * so, &p, bits) {
+                        fail_once(
+                            rec,
+                            &mut seen,
+                            "lwe_decrypt",
+                            &kind,
+                            B::NAME,
+                            c,
+                            inner_d,
+                            json!({"detail": detail, "cross_radix": bo != b, "truncating": bo * so < bits}),
+                        );
+                    }
+                }
+            }
+        }
+    }
+}
+
+// ---------------------------------------------------------------------------------------------
+// enumeration
+// ---------------------------------------------------------------------------------------------
+
+/// largest radix the backend's magnitude domain admits for mask * secret products at ring degree n
+/// (FFT64: n * 2^(b-1) must stay well inside the 53-bit significand; NTT120: 52)
+pub fn bmax<B: Bk>(n: usize) -> usize {
+    match B::FAMILY {
+        Family::Fft64 => 50 - n.trailing_zeros() as usize,
+        Family::Ntt120 => 52,
+    }
+}
+
+pub fn radices<B: Bk>(n: usize, tier: Tier) -> Vec<usize> {
+    let mut v: Vec<usize> = tier.pick(vec![1, 2, 3, 4, 17], vec![1, 2, 3, 4, 5, 6, 12, 17]);
+    v.push(bmax::<B>(n));
+    v
+}
+
+pub fn precisions(b: usize, tier: Tier) -> Vec<usize> {
+    let mut v: Vec<usize> = match tier {
+        Tier::Quick => {
+            if b <= 4 {
+                (1..=3 * b).collect()
+            } else {
+                vec![1, b, b + 1, 2 * b - 1, 3 * b]
+            }
+        }
+        Tier::Thorough => {
+            if b <= 6 {
+                (1..=4 * b).collect()
+            } else {
+                let mut v = vec![1, 2, b - 1, b, b + 1];
+                v.extend(2 * b..=3 * b); // every residue k mod b
+                v.push(4 * b - 1);
+                v.push(4 * b);
+                v
+            }
+        }
+    };
+    v.sort();
+    v.dedup();
+    v
+}
+
+fn cases<B: Bk>(path: Path, tier: Tier) -> Vec<Case> {
+    let mut out = vec![];
+    let ns: Vec<usize> = match path {
+        Path::LweSk => tier.pick(vec![8], vec![1, 7, 8, 16]),
+        _ => tier.pick(vec![8], vec![8, 16]),
+    };
+    let dists: Vec<Dist> = tier.pick(vec![Dist::TernaryProb, Dist::TernaryHw, Dist::BinaryBlock, Dist::Zero], ALL_DISTS.to_vec());
+    for &n in &ns {
+        let ranks: Vec<usize> = match path {
+            Path::LweSk => vec![0],
+            _ => tier.pick(vec![0, 1, 2], vec![0, 1, 2, 3]),
+        };
+        for &rank in &ranks {
+            for b in radices::<B>(n.next_power_of_two().max(8), tier) {
+                for k in precisions(b, tier) {
+                    for extra in 0..=1usize {
+                        for &dist in &dists {
+                            for noise in 0..=1u8 {
+                                // the tight-truncation configuration on a sub-grid only
+                                if noise == 1 && (extra == 1 || (tier == Tier::Quick && dist != Dist::TernaryProb)) {
+                                    continue;
+                                }
+                                if path == Path::GlweSkCrossRadix {
+                                    if noise != 0 || extra != 0 || dist != Dist::TernaryProb || rank > 1 || k < b {
+                                        continue;
+                                    }
+                                    for b_pt in [b + 1, b.saturating_sub(1)] {
+                                        if b_pt == 0 || b_pt > bmax::<B>(n) {
+                                            continue;
+                                        }
+                                        out.push(Case {
+                                            path,
+                                            backend: B::NAME.into(),
+                                            n,
+                                            rank,
+                                            b,
+                                            k,
+                                            extra,
+                                            dist,
+                                            noise,
+                                            b_pt,
+                                        });
+                                    }
+                                    continue;
+                                }
+                                out.push(Case {
+                                    path,
+                                    backend: B::NAME.into(),
+                                    n,
+                                    rank,
+                                    b,
+                                    k,
+                                    extra,
+                                    dist,
+                                    noise,
+                                    b_pt: b,
+                                });
+                            }
+                        }
+                    }
+                }
+            }
+        }
+    }
+    out
+}
+
+const RULE: &str = "outer = (N, rank, radix b, encryption precision k incl. every residue k mod b, extra ciphertext limbs, secret distribution, noise configuration); inner = seed triples (secret, mask, error; number 0 is the suite's all-zero seed) x plaintext sizes (shorter / equal / longer than the ciphertext) x message alphabet (zero, +-1 unit, all digits at either extreme, alternating extremes, seeded random, the *_zero_* API) and, on a fixed sub-grid, the library's decryption into plaintexts of equal and different radix / precision; distinct = outer cases; oracle = exact phase from limbs and clear secret, coefficient-wise hard bound";
+
+fn fam<B: Bk>(run: &mut Run, path: Path)
+where
+    Module<B>: HalAll<B> + CoreAll<B>,
+    Scratch<B>: ScratchTakeCore<B>,
+{
+    let (tier, seed) = (run.tier, run.seed);
+    let cs = cases::<B>(path, tier);
+    let kn = knobs(tier);
+    run.family(&format!("{}/{}", path.name(), B::NAME), RULE, cs, |c, rec| {
+        exec::<B>(c, &kn, Inner::default(), seed, rec)
+    });
+}
+
+pub fn run(run: &mut Run) {
+    run.assume("ring degrees N in {8,16} (LWE dimensions {1,7,8,16}); radices 1..6, 12, 17 and the backend's boundary radix: 52 on NTT120, 50-log2(N) on FFT64 (mask digit * ternary secret sums N*2^(b-1) must stay inside the f64 significand with margin)");
+    run.assume("noise: NoiseInfos{k, sigma, bound} with k <= size*b; the sampler rounds the truncated real sample to the nearest integer at the limb scale, so the integer error bound is round(bound*2^((limb+1)b-k)); configurations: library default (3.2, 19.2) and tight truncation (3.2, 3.2)");
+    run.assume("encryption adds the plaintext limb-wise: plaintext radix = ciphertext radix (public-key encryption asserts it); the family glwe_sk_cross_radix_pt demands only 'rejected or message at its declared position' for secret-key encryption of a plaintext of another radix");
+    run.assume("plaintext digits are normalised (in [-2^(b-1), 2^(b-1))); a plaintext longer than the ciphertext loses its extra limbs (tolerance: one unit of the ciphertext's last limb)");
+    run.assume("decryption: plaintext radix <= 50, any size; exact when plaintext bits >= ciphertext bits, else within one unit of the plaintext's last limb (the normalisation contract of C08)");
+    run.assume("scratch = the companion *_tmp_bytes query rounded up to 64 bytes, garbage-filled; results garbage-filled");
+    for path in [Path::GlweSk, Path::GlwePk, Path::GlweCompressed, Path::LweSk, Path::GlweSkCrossRadix] {
+        for_backends!(fam(run, path));
+    }
+    run.note(
+        "secret_replication",
+        json!("every GLWE secret used was verified against the harness copy by noise-free decryptions of unit masks; LWE secrets via LWESecret::raw"),
+    );
+}
+
+pub fn replay(run: &mut Run, d: &Value) {
+    let backend = d["backend"].as_str().unwrap_or("").to_string();
+    let fam = d["family"].as_str().unwrap_or("replay").to_string();
+    let seed = d["seed"].as_u64().unwrap_or(0);
+    let c: Case = serde_json::from_value(d["case"].clone()).expect("case");
+    let g = |k: &str| d.get("inner").and_then(|i| i.get(k)).and_then(|v| v.as_u64()).map(|v| v as usize);
+    let sel = Inner {
+        s: g("s"),
+        pv: g("pv"),
+        mc: g("mc"),
+    };
+    macro_rules! go {
+        ($B:ty) => {
+            run.single(&fam, "replay", |rec| exec::<$B>(&c, &replay_knobs(), sel, seed, rec))
+        };
+    }
+    match backend.as_str() {
+        "fft64-ref" => go!(pvc_common::FFT64Ref),
+        "ntt120-ref" => go!(pvc_common::NTT120Ref),
+        "fft64-avx" => go!(pvc_common::FFT64Avx),
+        "ntt120-avx" => go!(pvc_common::NTT120Avx),
+        o => panic!("unknown backend {o}"),
+    }
 }
